@@ -31,7 +31,11 @@ Definition outResult (t : tool) (argv : list tok) : wire :=
   ++ match conv_plan_of gen_suffix_formats t argv with
      | None => [0]
      | Some p => [1] ++ outTok (cp_in p) ++ outTok (cp_in_fmt p) ++ outTok (cp_out p) ++ outTok (cp_out_fmt p)
-     end.
+     end
+  (* OLD_ORDERING of the Geometries built by the executed blocks *)
+  ++ (let os := flat_map (fun e => match nth_error (t_blocks t) (e_block e) with
+                                   | Some b => block_orderings t argv b | None => [] end) (r_execs r) in
+      zn (List.length os) :: map (fun o : bool => if o then 1 else 0) os).
 
 Fixpoint offenders (ts : list tool) (idx : nat) : wire :=
   match ts with
@@ -46,6 +50,7 @@ Fixpoint offenders (ts : list tool) (idx : nat) : wire :=
       ++ (if tool_params_used_ok t then [] else [zn idx; -6; 0])
       ++ (if option_count_ok t then [] else [zn idx; -7; 0])
       ++ (if tool_doc_order_ok t then [] else [zn idx; -9; 0])
+      ++ (if geo_ordering_ok t then [] else [zn idx; -10; 0])
       ++ (if unknown_check_ok t then [] else [zn idx; -8; 0])
       ++ offenders r (S idx)
   end.
